@@ -133,7 +133,7 @@ fn build_sweeps(prop: &str, thorough: bool) -> Vec<Sweep> {
   let mut v = Vec::new();
   let n_places = if jit { PLACES_JIT.len() } else { PLACES.len() + STRADDLE.len() } as u32;
   let mut add = |kind: Kind, code: [u8; 3], len: u8, outer: u32| v.push(Sweep { kind, code, len, outer });
-  if prop == "C05" || prop == "C01" {
+  if prop == "C05" || jit {
     // x=2 ALU A,r and x=3,z=6 ALU A,d8
     for y in 0..8u8 {
       for z in 0..8u8 {
@@ -463,7 +463,7 @@ fn bobs_json(o: &BlockObs) -> J {
 
 /// `Core::run_code_block` maps both STATUS_INTERRUPT_ENABLE (4) and
 /// STATUS_INTERRUPT_ENABLE_IMMEDIATE (5) to "enabled": they are one outcome for a block.
-fn status_class(s: u8) -> u8 {
+pub fn status_class(s: u8) -> u8 {
   // anything outside STATUS_STOP..=STATUS_INTERRUPT_ENABLE_IMMEDIATE falls into run_code_block's
   // `_ => ()` arm exactly like STATUS_NORMAL (translated CB/rotate templates leave 0x80 there)
   match s {
